@@ -245,6 +245,8 @@ void run_c09(const std::vector<std::vector<std::string>>& cases, vt::Rng& rng)
       const std::string sig = kind + "/type" + c.at(2) + "/" + c.at(3) + "/run" + c.at(4) + (c.size() > 5 ? "/" + c[5] : "") + (g_from_gauge ? "/gb" : "");
       const double tb = p.mb.tan_beta;
       if (kind == "typed") {
+         // Delta_f is used by every type but the general one (README): the equivalence must hold with it as well
+         if (rng.coin()) { p.mb.Delta_u = vm::rand33(rng, 0.05); p.mb.Delta_d = vm::rand33(rng, 0.05); p.mb.Delta_l = vm::rand33(rng, 0.05); }
          ThdmPt q = p;
          q.mb.yukawa_type = thdm::Yukawa_type::aligned;
          // Table 1 of arXiv:1607.06292: zeta_u, zeta_d, zeta_l per type
